@@ -43,7 +43,12 @@ Consume ==
            ELSE UNCHANGED nv
      ELSE IF Ev.k = "SB" THEN UNCHANGED <<pos, nv>>
      ELSE IF Ev.k = "END" THEN
-        /\ IF Ev.r # Batch[tid].canon_r THEN PrintT(<<"V04", tid, l, "C04_outcome_differs", Ev.r, 0>>) /\ nv' = nv + 1
+        \* (C17, items with strictcmp: this is the rt_strict run of a real-time scenario, strictcmp.reports = number of too-slow
+        \* reports of the same run without rt_strict: "turns the first too-slow report into a RuntimeError and changes nothing else")
+        /\ IF "strictcmp" \in DOMAIN Batch[tid] /\ (Ev.cat = "too_slow") # (Batch[tid].strictcmp.reports > 0) THEN
+              PrintT(<<"V04", tid, l, IF Ev.cat = "too_slow" THEN "C04_strict_error_without_any_too_slow_report_in_the_non_strict_run"
+                                      ELSE "C04_no_strict_error_although_the_non_strict_run_reports_too_slow", Ev.r, 0>>) /\ nv' = nv + 1
+           ELSE IF Ev.r # Batch[tid].canon_r THEN PrintT(<<"V04", tid, l, "C04_outcome_differs", Ev.r, 0>>) /\ nv' = nv + 1
            ELSE IF Batch[tid].compare /\ Ev.r = "ok" /\ \E s \in SimsOf(tid) : pos[s] < Len(Batch[tid].canon[s])
              THEN PrintT(<<"V04", tid, l, "C04_missing_step", CHOOSE s \in SimsOf(tid) : pos[s] < Len(Batch[tid].canon[s]), 0>>) /\ nv' = nv + 1
            ELSE UNCHANGED nv
